@@ -101,7 +101,7 @@ theorem sis_log_arguments_positive (cfg : SisCfg ℝ) (lin circ : Nat) (hN : 0 <
     likelihood valid) every corrected log-weight is the predicted one plus `log(lᵢ + tiny)` minus the
     log-sum-exp of these — in the linear domain: weight × (likelihood + tiny), then normalised. -/
 theorem sis_reweight (cfg : SisCfg ℝ) (htiny : 0 < cfg.tiny) (s : SisState π ℝ) (ev : SisEvent π ℝ)
-    (hf : ev.freezeOk = true) (hs : (sisFlags s ev).2 = false) (hv : ev.likValid = true)
+    (hf : ev.freezeOk = true) (hs : (sisFlagsCor s ev).2 = false) (hv : ev.likValid = true)
     (hl : ev.lik.length = (sisPredict s ev).logw.length) (hnn : ∀ l ∈ ev.lik, 0 ≤ l)
     (i : Nat) (hi : i < ev.lik.length) :
     (sisCorrect cfg s ev).parts = (sisPredict s ev).parts ∧
@@ -161,12 +161,12 @@ theorem sis_no_measurement_identity (cfg : SisCfg ℝ) (s : SisState π ℝ) (ev
 /-- When the measurement is acquired but not used (correction skipped, or the likelihood invalid) the
     particles are the predicted ones and the weights are the predicted weights, normalised. -/
 theorem sis_unused_measurement (cfg : SisCfg ℝ) (s : SisState π ℝ) (ev : SisEvent π ℝ)
-    (hf : ev.freezeOk = true) (h : (sisFlags s ev).2 = true ∨ ev.likValid = false) :
+    (hf : ev.freezeOk = true) (h : (sisFlagsCor s ev).2 = true ∨ ev.likValid = false) :
     sisCorrect cfg s ev = { (sisPredict s ev) with logw := normalizeLog (sisPredict s ev).logw } := by
   unfold sisCorrect
   rcases h with h | h
   · simp [hf, h]
-  · cases hs : (sisFlags s ev).2 <;> simp [hf, h, bootstrapCorrect]
+  · cases hs : (sisFlagsCor s ev).2 <;> simp [hf, h, bootstrapCorrect]
 
 /-- Resampling runs exactly when `1 / Σ exp(wᵢ)²  <  N / 3` for the corrected weights `w`; otherwise
     the corrected set is kept as it is. -/
@@ -213,11 +213,130 @@ theorem sis_after_resample_uniform (cfg : SisCfg ℝ) (lin circ : Nat) (hN : 0 <
       (by rw [hc.parts, hc.logw]) j (by rw [hc.logw]; exact hj)
     exact ⟨p, hp, by rw [sisStep_parents, hr]; exact h3, by rw [sisStep_cor, hr]; exact h4⟩
 
-/-- skip commands only ever set the two flags (they cannot break the invariant, whatever their order) -/
+/-- skip commands only ever set the two flags (they cannot break the invariant, whatever their order and
+    whatever the moment they arrive at): after the step the flags are the fold of all the commands of the
+    step in arrival order — those issued before the step, those arriving between the prediction's and the
+    correction's read of their flags, and those arriving after the correction's read -/
 theorem sis_flags_after (cfg : SisCfg ℝ) (s : SisState π ℝ) (ev : SisEvent π ℝ) :
-    (sisStep cfg s ev).skipPred = (ev.cmds.foldl applyCmd (s.skipPred, s.skipCor)).1 ∧
-    (sisStep cfg s ev).skipCor = (ev.cmds.foldl applyCmd (s.skipPred, s.skipCor)).2 := by
-  exact sisStepWith_flags _ cfg s ev
+    (sisStep cfg s ev).skipPred = ((ev.cmds ++ ev.cmdsMid ++ ev.cmdsLate).foldl applyCmd (s.skipPred, s.skipCor)).1 ∧
+    (sisStep cfg s ev).skipCor = ((ev.cmds ++ ev.cmdsMid ++ ev.cmdsLate).foldl applyCmd (s.skipPred, s.skipCor)).2 := by
+  have h := sisStepWith_flags resample cfg s ev
+  simp only [sisFlagsEnd, sisFlagsCor, sisFlags, ← List.foldl_append] at h
+  exact h
+
+/-- Which flag value each part of the step obeys: the prediction the flags after the commands issued before
+    the step (commands arriving later in the step do not reach it); the correction the flags after the
+    commands that arrived before *its* read; commands arriving after that read change nothing in this step —
+    predicted set, corrected set, resampling decision, parents and generator are those of the step without
+    them.  In particular the normalisation never depends on a flag (`sis_inv_step` holds for all command
+    lists): there is no second read of the correction's flag in `filtering_step()`. -/
+theorem sis_command_arrival (rs : PSet π ℝ → PSet π ℝ → ℝ → PSet π ℝ × List Int)
+    (cfg : SisCfg ℝ) (s : SisState π ℝ) (ev : SisEvent π ℝ) (mid late : List SkipCmd) :
+    sisPredict s { ev with cmdsMid := mid, cmdsLate := late } = sisPredict s ev ∧
+    sisCorrect cfg s { ev with cmdsLate := late } = sisCorrect cfg s ev ∧
+    (sisStepWith rs cfg s { ev with cmdsLate := late }).pred = (sisStepWith rs cfg s ev).pred ∧
+    (sisStepWith rs cfg s { ev with cmdsLate := late }).cor = (sisStepWith rs cfg s ev).cor ∧
+    (sisStepWith rs cfg s { ev with cmdsLate := late }).resampled = (sisStepWith rs cfg s ev).resampled ∧
+    (sisStepWith rs cfg s { ev with cmdsLate := late }).parents = (sisStepWith rs cfg s ev).parents ∧
+    (sisStepWith rs cfg s { ev with cmdsLate := late }).rng = (sisStepWith rs cfg s ev).rng ∧
+    (sisStepWith rs cfg s { ev with cmdsLate := late }).step = (sisStepWith rs cfg s ev).step := by
+  have hp : sisPredict s { ev with cmdsMid := mid, cmdsLate := late } = sisPredict s ev := rfl
+  have hc : sisCorrect cfg s { ev with cmdsLate := late } = sisCorrect cfg s ev := rfl
+  refine ⟨hp, hc, ?_, ?_, ?_, ?_, ?_, ?_⟩
+  · rw [sisStepWith_pred, sisStepWith_pred]; rfl
+  · rw [sisStepWith_cor, sisStepWith_cor, hc]
+  · rw [sisStepWith_resampled, sisStepWith_resampled, hc]
+  · rw [sisStepWith_parents, sisStepWith_parents, hc]
+  · rw [sisStepWith_rng, sisStepWith_rng, hc]
+  · rw [sisStepWith_step, sisStepWith_step]
+
+/-- The moment of arrival matters (the model must distinguish it): the same command `skip("correction", true)`
+    issued before the step suppresses the re-weighting of this step, arriving after the correction's read it
+    does not — one particle pair, likelihoods `(1, 3)`: corrected weights differ. -/
+theorem sis_arrival_point_matters :
+    let cfg : SisCfg ℝ := { N := 2, tiny := 1 }
+    let s : SisState Unit ℝ := sisInit cfg 1 0 (fun p => { p with logw := [0, 0] }) []
+    let ev : SisEvent Unit ℝ := { cmds := [], freezeOk := true, likValid := true, lik := [1, 3],
+                                    predict := fun prev p => { p with logw := prev.logw } }
+    (sisFlagsCor s { ev with cmds := [.corOn] }).2 = true ∧ (sisFlagsCor s { ev with cmdsLate := [.corOn] }).2 = false ∧
+    (sisStep cfg s { ev with cmds := [.corOn] }).skipCor = true ∧ (sisStep cfg s { ev with cmdsLate := [.corOn] }).skipCor = true ∧
+    sisCorrect cfg s { ev with cmds := [.corOn] } ≠ sisCorrect cfg s { ev with cmdsLate := [.corOn] } := by
+  intro cfg s ev
+  refine ⟨rfl, rfl, (sis_flags_after cfg s _).2, (sis_flags_after cfg s _).2, ?_⟩
+  intro h
+  have h2 := congrArg (fun p : PSet Unit ℝ => p.logw) h
+  have e1 : (sisCorrect cfg s { ev with cmds := [.corOn] }).logw = normalizeLog [0, 0] := rfl
+  have e2 : (sisCorrect cfg s { ev with cmdsLate := [.corOn] }).logw =
+      normalizeLog [0 + Real.log (1 + 1), 0 + Real.log (3 + 1)] := rfl
+  simp only [e1, e2] at h2
+  have h3 := congrArg (fun l : List ℝ => l.getD 1 0 - l.getD 0 0) h2
+  simp only [normalizeLog, List.map_cons, List.map_nil, List.getD_cons_succ, List.getD_cons_zero] at h3
+  have : Real.log (1 + 1) = Real.log (3 + 1) := by linarith
+  have h4 := Real.log_injOn_pos (by norm_num : (1 + 1 : ℝ) ∈ Set.Ioi 0) (by norm_num : (3 + 1 : ℝ) ∈ Set.Ioi 0) this
+  norm_num at h4
+
+/-- Command histories that net to nothing: if the commands issued before a step leave both flags as they were
+    (`[on, off]`, `[all on, prediction off, correction off]`, … on a filter that was not skipping), the step is
+    exactly the step of a filter that received no command — predicted set, corrected set, resampling, flags. -/
+theorem sis_commands_netting_to_nothing (rs : PSet π ℝ → PSet π ℝ → ℝ → PSet π ℝ × List Int)
+    (cfg : SisCfg ℝ) (s : SisState π ℝ) (ev : SisEvent π ℝ)
+    (h : ev.cmds.foldl applyCmd (s.skipPred, s.skipCor) = (s.skipPred, s.skipCor)) :
+    sisStepWith rs cfg s ev = sisStepWith rs cfg s { ev with cmds := [] } := by
+  have hf : sisFlags s ev = sisFlags s { ev with cmds := [] } := by
+    simp only [sisFlags, h, List.foldl_nil]
+  have hc : sisFlagsCor s ev = sisFlagsCor s { ev with cmds := [] } := by
+    simp only [sisFlagsCor, hf]
+  have he : sisFlagsEnd s ev = sisFlagsEnd s { ev with cmds := [] } := by
+    simp only [sisFlagsEnd, hc]
+  have hp : sisPredict s ev = sisPredict s { ev with cmds := [] } := by
+    simp only [sisPredict, hf]
+  have hcor : sisCorrect cfg s ev = sisCorrect cfg s { ev with cmds := [] } := by
+    simp only [sisCorrect, hc, hp]
+  simp only [sisStepWith, he, hp, hcor]
+
+/-- non-vacuity: on a filter that is not skipping, `skip("all", true); skip("prediction", false);
+    skip("correction", false)` nets to nothing, and so does `on, off` of either flag -/
+example : [SkipCmd.allOn, .predOff, .corOff].foldl applyCmd (false, false) = (false, false) ∧
+    [SkipCmd.corOn, .corOff].foldl applyCmd (false, false) = (false, false) ∧
+    [SkipCmd.predOn, .other, .allOff].foldl applyCmd (false, false) = (false, false) := ⟨rfl, rfl, rfl⟩
+
+/-- a command `ParticleFilter::skip` does not know is refused and changes nothing; the six step-level
+    commands are accepted -/
+theorem sis_unknown_command_ignored (f : Bool × Bool) :
+    applyCmd f .other = f ∧ cmdAccepted .other = false ∧
+    (∀ c, c ≠ SkipCmd.other → cmdAccepted c = true) := by
+  refine ⟨rfl, rfl, ?_⟩
+  intro c hc
+  cases c <;> first | rfl | exact absurd rfl hc
+
+/-- all the commands of a life item, in arrival order -/
+def opCmds : SisOp π ℝ → List SkipCmd
+  | .step ev => ev.cmds ++ ev.cmdsMid ++ ev.cmdsLate
+  | .reset _ => []
+
+/-- History level: after a whole life (steps and resets, any resampling object) the two flags are the fold of
+    every command ever issued, in arrival order, over the flags at the start — a reset does not clear them,
+    no step changes them by itself, and the moment a command arrives at inside a step is irrelevant for the
+    flags (it is relevant only for which parts of that step still see the old value: `sis_command_arrival`). -/
+theorem sis_flags_history (rs : PSet π ℝ → PSet π ℝ → ℝ → PSet π ℝ × List Int)
+    (cfg : SisCfg ℝ) (s : SisState π ℝ) (ops : List (SisOp π ℝ)) :
+    ((sisRun rs cfg s ops).skipPred, (sisRun rs cfg s ops).skipCor) =
+      (ops.flatMap opCmds).foldl applyCmd (s.skipPred, s.skipCor) := by
+  induction ops generalizing s with
+  | nil => rfl
+  | cons op ops ih =>
+    have hrun : sisRun rs cfg s (op :: ops) =
+        sisRun rs cfg (match op with | .step ev => sisStepWith rs cfg s ev | .reset init => sisReinit init s) ops := by
+      cases op <;> rfl
+    rw [hrun, ih, List.flatMap_cons, List.foldl_append]
+    congr 1
+    cases op with
+    | step ev =>
+      have h := sisStepWith_flags rs cfg s ev
+      simp only [sisFlagsEnd, sisFlagsCor, sisFlags, ← List.foldl_append] at h
+      simp only [opCmds]
+      exact Prod.ext h.1 h.2
+    | reset init => rfl
 
 /-! ### Any resampling implementation
 
